@@ -1,6 +1,7 @@
 """C06 - Craig-Bampton checks: cbcheck on valid and faulty models, cbtf, cgmass, cbconvert/cbreorder."""
 import io
 import math
+import warnings
 import re
 
 import numpy as np
@@ -1360,6 +1361,178 @@ def conv_cases(draw):
                 ref=[draw(_f(-2, 2)), draw(_f(-2, 2)), draw(_f(-2, 2))])
 
 
+# ---------------------------------------------------------------- cbcoordchk with null-stiffness boundary DOF
+
+def _rbt(frm, to):
+    """6x6: motion of a grid at `to` caused by the six rigid motions of a point at `frm` (basic system)"""
+    r = np.asarray(to, float) - np.asarray(frm, float)
+    T = np.eye(6)
+    T[:3, 3:] = -np.array([[0.0, -r[2], r[1]], [r[2], 0.0, -r[0]], [-r[1], r[0], 0.0]])
+    return T
+
+
+def oracle_coordchk_null(case, R):
+    """cb.cbcoordchk on a free structure of which one or two boundary grids hang on a single joint, located at the
+    grid, that carries no moment about one axis: that boundary DOF has an all-zero row in Kbb and the routine trims it
+    before its static solve.  Oracle: with rb_normalizer = (geometric rigid-body modes)[refpoint], the returned
+    stiffness-based modes are the geometric ones on every DOF that has stiffness (documented meaning of
+    `rb_normalizer`), the coordinates are the grid locations, and refpoint_chk is 'pass'; a reference set that
+    contains the null DOF is refused (RuntimeError).  Built here from joints, independent of vcheck's structure model
+    """
+    from pyyeti import cb
+    rng = util.rng_of(case["seed"])
+    L = case["length"]
+    nbg, nin = case["nbg"], case["nint"]
+    ng = nbg + nin
+    n = 6 * ng
+    xyz = rng.uniform(-1, 1, (ng, 3)) * L
+    for _ in range(20):
+        d = np.linalg.norm(xyz[:, None] - xyz[None], axis=2) + np.eye(ng) * L
+        if d.min() > 0.2 * L:
+            break
+        xyz = rng.uniform(-1, 1, (ng, 3)) * L
+    nulls = {}                  # boundary grid -> null rotation axis (3, 4 or 5)
+    for g, a in zip(case["nullgrids"], case["nullaxes"]):
+        if g < nbg and g not in nulls and len(nulls) < nbg - 1:
+            nulls[g] = a
+    if not nulls:
+        nulls[0] = case["nullaxes"][0]
+    kt = case["kscale"]
+
+    def kj():
+        k = kt * rng.uniform(1.0, case["kspread"], 6)
+        k[3:] *= L * L
+        return k
+    joints = []
+    interior = list(range(nbg, ng))
+    for g in range(nbg):
+        j = interior[int(rng.integers(nin))]
+        k = kj()
+        if g in nulls:
+            k[nulls[g]] = 0.0
+            joints.append((g, j, xyz[g], k))
+        else:
+            joints.append((g, j, xyz[g] + rng.uniform(-0.3, 0.3, 3) * L, k))
+            j2 = interior[int(rng.integers(nin))]
+            if j2 != j:
+                joints.append((g, j2, 0.5 * (xyz[g] + xyz[j2]), kj()))
+    for a in range(nin):
+        for b in range(a + 1, nin):
+            if b == a + 1 or rng.uniform() < 0.5:
+                joints.append((interior[a], interior[b], rng.uniform(-1, 1, 3) * L, kj()))
+    K = np.zeros((n, n))
+    for i, j, loc, k in joints:
+        G = np.zeros((6, n))
+        G[:, 6 * i:6 * i + 6] = _rbt(xyz[i], loc)
+        G[:, 6 * j:6 * j + 6] = -_rbt(xyz[j], loc)
+        K += G.T @ (k[:, None] * G)
+    nb = 6 * nbg
+    bd, od = np.arange(nb), np.arange(nb, n)
+    Koo, Kob = K[np.ix_(od, od)], K[np.ix_(od, bd)]
+    Kbb = K[np.ix_(bd, bd)] - Kob.T @ np.linalg.solve(Koo, Kob)
+    Kbb = (Kbb + Kbb.T) / 2
+    nullpos = sorted(6 * g + a for g, a in nulls.items())
+    # the null rows are zero by construction; remove the round-off of the reduction (Nastran's AUTOSPC/zero terms)
+    R.check(float(np.abs(Kbb[nullpos]).max()) <= 1e-9 * float(np.abs(Kbb).max()), "harness:null_row_not_null")
+    Kbb[nullpos, :] = 0.0
+    Kbb[:, nullpos] = 0.0
+    nq = case["nq"]
+    lt = nb + nq
+    if case["layout"] == "bfirst":
+        bset = np.arange(nb)
+    elif case["layout"] == "blast":
+        bset = nq + np.arange(nb)
+    else:
+        bset = np.sort(rng.choice(lt, nb, replace=False))
+    qset = np.setdiff1d(np.arange(lt), bset)
+    Kcb = np.zeros((lt, lt))
+    Kcb[np.ix_(bset, bset)] = Kbb
+    Kcb[qset, qset] = kt * rng.uniform(1.0, 100.0, nq)
+    org = rng.uniform(-1, 1, 3) * L if case["origin"] else np.zeros(3)
+    RB = np.vstack([_rbt(org, xyz[g]) for g in range(nbg)])
+    sc = np.array([1.0, 1.0, 1.0, L, L, L])
+    # reference DOF (positions in the b-set)
+    g0 = sorted(nulls)[case["refgrid"] % len(nulls)]
+    kind = case["refkind"]
+    ref = None
+    if kind in ("span", "withnull"):
+        base = [6 * g0 + c for c in range(6) if c != nulls[g0]]
+        cands = [6 * g + c for g in range(nbg) if g != g0 for c in range(3)]
+        order = rng.permutation(len(cands))
+        for t in order:
+            pos = np.sort(np.array(base + [cands[t]]))
+            if np.linalg.cond(RB[pos] / sc) <= 100.0:
+                ref = pos
+                break
+        if ref is not None and kind == "withnull":
+            ref = np.arange(6 * g0, 6 * g0 + 6)
+    if ref is None:
+        kind = "grid"
+        others = [g for g in range(nbg) if g not in nulls]
+        g1 = others[case["refgrid"] % len(others)]
+        ref = np.arange(6 * g1, 6 * g1 + 6)
+    between = any(ref.min() < p < ref.max() for p in nullpos)
+    before = any(p < ref.min() for p in nullpos)
+    R.label(f"ref:{kind}", f"nnull:{len(nullpos)}", "null_between_ref" if between else "null_outside_ref",
+            "null_before_ref" if before else "no_null_before_ref", f"layout:{case['layout']}",
+            "nq0" if nq == 0 else "nq>0", "normalizer" if case["normalizer"] or kind != "grid" else "no_normalizer")
+    R.nontrivial(between)
+    use_norm = case["normalizer"] or kind != "grid"
+    rbn = RB[ref] if use_norm else None
+    keep = Kcb.copy()
+    buf = io.StringIO()
+    if kind == "withnull":
+        try:
+            cb.cbcoordchk(Kcb, bset, bset[ref], verbose=False, outfile=buf, rb_normalizer=rbn)
+        except RuntimeError:
+            R.label("withnull:RuntimeError")
+            return
+        R.fail("coordchk_accepts_null_reference_dof")
+        return
+    with warnings.catch_warnings():
+        warnings.simplefilter("ignore")
+        out = cb.cbcoordchk(Kcb, bset, bset[ref], verbose=case["verbose"], outfile=buf, rb_normalizer=rbn)
+    R.check(np.array_equal(Kcb, keep), "coordchk_modified_input")
+    want = RB if use_norm else RB @ np.linalg.inv(RB[ref])
+    xyzw = xyz[:nbg] - org if use_norm else xyz[:nbg] - xyz[ref[0] // 6]
+    got = out.rbmodes
+    R.check(got.shape == (lt, 6), "coordchk_rbmodes_shape", str(got.shape))
+    if got.shape != (lt, 6):
+        return
+    R.check(not got[qset].any(), "coordchk_rbmodes_q_rows_not_zero")
+    gb = got[bset]
+    live = np.setdiff1d(np.arange(nb), nullpos)
+    S_ = np.ones((nb, 6))
+    S_[np.ix_([r for r in range(nb) if r % 6 < 3], [3, 4, 5])] = L      # translation caused by a unit rotation ~ L
+    e = float(np.abs((gb[live] - want[live]) / S_[live]).max())
+    R.metric("rbmodes_err", e)
+    R.check(e <= 1e-7, "coordchk_rbmodes_vs_geometry", f"err={e:.3g} ref={ref.tolist()} null={nullpos}")
+    R.check(out.refpoint_chk == "pass", "coordchk_refpoint_chk", out.refpoint_chk)
+    e = float(np.abs(Kcb @ got).max()) / float(np.abs(Kbb).max()) / L
+    R.metric("K_rb", e)
+    R.check(e <= 1e-7, "coordchk_K_times_rb", f"{e:.3g}")
+    if use_norm or kind == "grid":
+        e = float(np.abs(out.coords - xyzw).max()) / L
+        R.metric("coords_err", e)
+        R.check(e <= 1e-6, "coordchk_coords", f"err={e:.3g}")
+    if case["verbose"]:
+        R.check("PASS" in buf.getvalue(), "coordchk_report_says_fail")
+
+
+@st.composite
+def coordnull_cases(draw):
+    nbg = draw(st.integers(2, 4))
+    return dict(seed=draw(st.integers(0, 2 ** 31 - 1)), nbg=nbg, nint=draw(st.integers(2, 4)),
+                length=draw(st.sampled_from([0.5, 2.0, 10.0, 50.0])), kscale=draw(st.sampled_from([1.0, 1e4, 1e7])),
+                kspread=draw(st.sampled_from([2.0, 10.0])),
+                nullgrids=draw(st.lists(st.integers(0, nbg - 1), min_size=1, max_size=2)),
+                nullaxes=draw(st.lists(st.integers(3, 5), min_size=2, max_size=2)),
+                refkind=draw(st.sampled_from(["span", "span", "span", "grid", "withnull"])),
+                refgrid=draw(st.integers(0, 3)), nq=draw(st.sampled_from([0, 0, 3, 7])),
+                layout=draw(st.sampled_from(["bfirst", "blast", "split"])), origin=draw(st.booleans()),
+                normalizer=draw(st.booleans()), verbose=draw(st.booleans()))
+
+
 # ---------------------------------------------------------------- parts
 
 REQUIRED_CLASSES = {"thorough": ["cbcheck:out:C", "cbcheck:out:S", "cbcheck:bref:mix", "cbcheck:perm:swap",
@@ -1368,7 +1541,9 @@ REQUIRED_CLASSES = {"thorough": ["cbcheck:out:C", "cbcheck:out:S", "cbcheck:bref
                                  "cbcheck_faulty:fault:ground_b", "cbcheck_faulty:fault:ground_i",
                                  "cbcheck_faulty:fault:moved", "cbcheck_faulty:fault_visible",
                                  "cbcheck_faulty:refpoint_fail_expected", "cbtf:damp:full", "cbtf:zeroHz",
-                                 "cbtf:noq", "cgmass:aniso", "cgmass:nonsym:ValueError"]}
+                                 "cbtf:noq", "cgmass:aniso", "cgmass:nonsym:ValueError",
+                                 "coordchk_null:null_between_ref", "coordchk_null:null_before_ref",
+                                 "coordchk_null:withnull:RuntimeError"]}
 
 PARTS = [
     Part("cbcheck", oracle_cbcheck, strategy=lambda: cb_cases("valid"), quick=(12, 150), thorough=(16, 1100)),
@@ -1385,6 +1560,8 @@ PARTS = [
          quick=(1, 15), thorough=(1, 60)),
     Part("cbcheck_noreorder_rbnorm", oracle_cbcheck, strategy=lambda: cb_cases("noreorder_rbnorm"),
          quick=(1, 15), thorough=(1, 60)),
+    # null-stiffness boundary DOF between the reference DOF (seeded C06j): cbcoordchk trims them before its solve
+    Part("coordchk_null", oracle_coordchk_null, strategy=coordnull_cases, quick=(1, 150), thorough=(4, 600)),
     # documented defaults: leaving a keyword out = passing its documented value (vlib/defaults.py)
     Part("defaults", defaults.make_oracle("C06"), enum=defaults.make_enum(), quick=(1, None), thorough=(1, None),
          exhaustive=True),
